@@ -288,6 +288,7 @@ class System(object):
             s["pc%d" % t] = IV(0)
             s["cur%d" % t] = IV(-1)       # local lock_id
             s["pause%d" % t] = z3.BoolVal(False)
+            s["obs%d" % t] = z3.BoolVal(False)   # pause[t] seen by the solver
             for c in self.conds:
                 s["w_%s_%d" % (c, t)] = z3.BoolVal(False)
                 s["n_%s_%d" % (c, t)] = z3.BoolVal(False)
@@ -425,6 +426,13 @@ class System(object):
                     p = ins[2]
                     continue
                 cz = self._condz(s, c)
+                if c == "pause_nonempty" and t == 0:
+                    # history: which pause requests the solver has seen at
+                    # its last test (cleared when the test finds none)
+                    s = dict(s)
+                    for u in range(self.nt):
+                        s["obs%d" % u] = z3.And(cz, z3.Or(s["obs%d" % u],
+                                                          s["pause%d" % u]))
                 a = self._run(s, t, p + 1, depth + 1)
                 b = self._run(s, t, ins[2], depth + 1)
                 return dict((k, z3.If(cz, a[k], b[k])) for k in a)
